@@ -2,6 +2,7 @@ import KrroodVerif.Sexp
 import KrroodVerif.Model.Eql
 import KrroodVerif.Model.EqlTrace
 import KrroodVerif.Model.EqlTraceQ
+import KrroodVerif.Model.EqlTraceN
 import KrroodVerif.Model.Quantifier
 import KrroodVerif.Drive.EqlParse
 namespace KrroodVerif.Drive.C10
@@ -59,14 +60,34 @@ def run (s : Sexp) : String :=
   match parseCase s with
   | none => "error=bad-case"
   | some (w, q) =>
-    let evs := traceQueryQ w q.toQuery
-    let n := (rowsOf evs).length
+    let qq := q.toQuery
+    -- a condition with a quantifier ANYWHERE: `traceQueryN` (Model/EqlTraceN.lean, Props/C10N.lean) — it also covers
+    -- the root position, where it is the more faithful transcription (`Exists` looks its variable up in EVERY child
+    -- result, `ForAll`'s later passes perform the child's events up to its first result); quantifier-free conditions:
+    -- `traceQueryQ` = `traceQuery` as before (Props/C10). For one quantifier at the root over a quantifier-free body the
+    -- observation through `traceQueryQ` (Props/C10Q) is printed as `altq=` (compared in `extra_coverage`).
+    let quantified := match qq.cond with | some c => c.hasQ | none => false
+    let rootQ := match qq.cond with
+      | some (.exists_ _ c) | some (.forAll _ c) => !c.hasQ
+      | _ => false
     let vars := sortNat (w.doms.map (·.1))
-    let line := fun (k : Nat) =>
-      let pre := uptoRow k evs
-      s!"k{k}:" ++ showList (vars.map fun v => toString (pulled v pre))
-    let body := " ".intercalate ((List.range (n + 1)).map line)
-    let full := "end:" ++ showList (vars.map fun v => toString (pulled v evs))
-    let out := if hasErr evs then "exc" else s!"n={n} {body} {full}"
-    s!"model={out}\tspec={out}\ttrig=\trows={" ".intercalate ((rowsOf evs).map showRow)}"
+    let obs := fun (evs : List Ev) =>
+      let n := (rowsOf evs).length
+      let line := fun (k : Nat) =>
+        let pre := uptoRow k evs
+        s!"k{k}:" ++ showList (vars.map fun v => toString (pulled v pre))
+      -- `h{k}`: HISTORY "take k results, abandon, evaluate the same query again and take one result": the second
+      -- evaluation replays what is cached (pull events with indices already consumed) and pulls on demand beyond it,
+      -- so the generators have given out the maximum of what the two partial evaluations need
+      let k2 := 1   -- (no result at all: asking for one runs the evaluation to its end)
+      let hline := fun (k : Nat) =>
+        s!"h{k}:" ++ showList (vars.map fun v => toString (max (pulled v (uptoRow k evs)) (pulled v (uptoRow k2 evs))))
+      let body := " ".intercalate ((List.range (n + 1)).map line ++ (List.range (n + 1)).map hline)
+      let full := "end:" ++ showList (vars.map fun v => toString (pulled v evs))
+      if hasErr evs then "exc" else s!"n={n} {body} {full}"
+    let evsN := traceQueryN w qq
+    let evs := if quantified then evsN else traceQueryQ w qq
+    let out := obs evs
+    let altq := if rootQ then s!"\taltq={obs (traceQueryQ w qq)}" else ""
+    s!"model={out}\tspec={out}\ttrig=\trows={" ".intercalate ((rowsOf evs).map showRow)}\tfrag={if quantified then "N" else "QF"}{altq}"
 end KrroodVerif.Drive.C10
